@@ -71,6 +71,8 @@ class Pool:
             os.close(pw)
             for o in getattr(self, "workers", []):
                 for fd in (o.rfd, o.wfd):
+                    if fd < 0 or fd in (cr, cw):
+                        continue
                     try:
                         os.close(fd)
                     except OSError:
@@ -116,17 +118,24 @@ class Pool:
         while off < len(data):
             off += os.write(w.wfd, data[off:off + 32768])
 
-    def run(self, jobs, on_result, limit_s=60, static=True):
-        """Execute jobs (dicts with unique 'id').  static: job k goes to worker k % n (deterministic sequences)."""
+    def run(self, jobs, on_result, limit_s=60, epoch=0):
+        """Execute jobs (dicts with unique 'id').  Job k goes to worker k % n (deterministic sequences).  With
+        epoch > 0 a worker is replaced by a fresh fork of the parent after every `epoch` jobs, which bounds the length
+        of the sequence a violation may depend on."""
         jobs = list(jobs)
         per = [[] for _ in range(self.n)]
         for k, j in enumerate(jobs):
             per[k % self.n].append(j)
+        queues = {}
         busy = {}
-        for w, lst in zip(self.workers, per):
-            if lst:
-                self._send(w, lst)
-                busy[w.rfd] = w
+        for i, lst in enumerate(per):
+            if not lst:
+                continue
+            chunks = [lst[k:k + epoch] for k in range(0, len(lst), epoch)] if epoch else [lst]
+            queues[i] = chunks
+            w = self.workers[i]
+            self._send(w, chunks.pop(0))
+            busy[w.rfd] = w
         while busy:
             ready, _, _ = select.select(list(busy), [], [], 1.0)
             now = time.monotonic()
@@ -149,6 +158,11 @@ class Pool:
                         del busy[w.rfd]
                         w.pending = []
                         w.current = None
+                        rest = queues.get(w.wid)
+                        if rest:
+                            nw = self._replace(w)
+                            self._send(nw, rest.pop(0))
+                            busy[nw.rfd] = nw
                     else:
                         jid = o.get("_id")
                         job = None
@@ -161,6 +175,29 @@ class Pool:
             for fd, w in list(busy.items()):
                 if now - w.t_last > limit_s:
                     self._worker_died(w, busy, on_result, "timeout")
+
+    def _replace(self, w):
+        try:
+            os.close(w.wfd)
+        except OSError:
+            pass
+        try:
+            os.kill(w.pid, signal.SIGKILL)
+        except ProcessLookupError:
+            pass
+        try:
+            os.waitpid(w.pid, 0)
+        except ChildProcessError:
+            pass
+        try:
+            os.close(w.rfd)
+        except OSError:
+            pass
+        i = self.workers.index(w)
+        w.rfd = w.wfd = -1  # closed: the numbers may be reused by the new worker's pipes
+        nw = self._spawn(w.wid)
+        self.workers[i] = nw
+        return nw
 
     def _worker_died(self, w, busy, on_result, why):
         try:
@@ -185,8 +222,10 @@ class Pool:
         if culprit is not None:
             on_result(culprit, {"status": why, "_id": culprit.get("id"), "_wid": w.wid,
                                 "signal": (os.WTERMSIG(st) if os.WIFSIGNALED(st) else None)})
+        i = self.workers.index(w)
+        w.rfd = w.wfd = -1
         nw = self._spawn(w.wid)
-        self.workers[self.workers.index(w)] = nw
+        self.workers[i] = nw
         if pending:
             self._send(nw, pending)
             busy[nw.rfd] = nw
